@@ -26,9 +26,10 @@ package main
 //
 // (the driver answers lower-ok / lower-none: never equal).
 //
-// inFragment mirrors the success condition of `lower` (lowerE/lowerS/lowerB/
-// lowerFor/scopeOk/RTree.mat) on the harness AST as Sx() serialises it; it is
-// more conservative in two places (reasons cast_of_constant, loop_too_long).
+// inFragment mirrors the success condition of `lower` (lowerE/lowerArgs/lowerCall/
+// lowerS/lowerB/lowerFor/pathOff/progOk/RTree.mat) on the harness AST as Sx()
+// serialises it; it is more conservative in a few places (reasons cast_of_constant,
+// loop_too_long, struct types compared through the declared result types).
 
 import (
 	"fmt"
@@ -52,7 +53,18 @@ type fexp struct {
 	n     *big.Int
 }
 
+// fprog: per program state of the predicate: the verdict on every function that
+// is reached by a call ("" = inside; callees are checked in their own scope, once:
+// the verdict does not depend on the call site because arguments are never
+// constants and their types must equal the parameter types).
+type fprog struct {
+	p      *Program
+	callee map[*Func]string
+	busy   map[*Func]bool
+}
+
 type fchk struct {
+	pg     *fprog
 	scopes []map[string]fbind
 	f      *Func
 }
@@ -93,6 +105,113 @@ var binNumOps = map[string]bool{"add": true, "sub": true, "mul": true, "div": tr
 	"xor": true, "clr": true}
 var binCmpOps = map[string]bool{"lt": true, "le": true, "gt": true, "ge": true}
 
+// tyEqGo mirrors `tyEq` (structural; the harness' Ty.Eq compares structs by name).
+func tyEqGo(a, b *Ty) bool {
+	if a.K != b.K {
+		return false
+	}
+	switch a.K {
+	case KBool:
+		return true
+	case KInt, KUint:
+		return a.W == b.W
+	case KArr:
+		return a.N == b.N && tyEqGo(a.Elem, b.Elem)
+	default:
+		if len(a.Fields) != len(b.Fields) {
+			return false
+		}
+		for i := range a.Fields {
+			if !tyEqGo(a.Fields[i], b.Fields[i]) {
+				return false
+			}
+		}
+		return true
+	}
+}
+
+// constIdx mirrors `constIdx`: a literal or a loop constant as Sx() serialises them.
+func (c *fchk) constIdx(e *Expr) (int64, bool) {
+	switch e.K {
+	case "lit":
+		if e.T.IsNum() && litOkGo(e.T.Signed(), e.T.W, e.N) == "" && e.N.IsInt64() {
+			return e.N.Int64(), true
+		}
+	case "var", "ivar":
+		if e.K == "ivar" && !(e.T.K == KInt && e.T.W == 32) {
+			return 0, false // ( C T ( V i ) ): a folded conversion, not a bare constant
+		}
+		if b, ok := c.find(e.X); ok && b.konst {
+			return b.n, true
+		}
+	}
+	return 0, false
+}
+
+// calleeOK: is the body of fn inside the fragment when inlined.
+func (pg *fprog) calleeOK(fn *Func) string {
+	if why, ok := pg.callee[fn]; ok {
+		return why
+	}
+	if pg.busy[fn] {
+		return "recursion"
+	}
+	pg.busy[fn] = true
+	why := pg.funcBody(fn)
+	delete(pg.busy, fn)
+	pg.callee[fn] = why
+	return why
+}
+
+// funcBody mirrors lowerCall / lower on one function: parameters in a fresh scope,
+// the body must return on every path.
+func (pg *fprog) funcBody(f *Func) string {
+	c := &fchk{pg: pg, f: f}
+	c.push()
+	for _, pr := range f.Params {
+		c.declare(pr.Name, fbind{t: pr.T})
+	}
+	// named results are ordinary zero-initialised variables in Sx()
+	for i, n := range f.Named {
+		c.declare(n, fbind{t: f.Results[i]})
+	}
+	ret, why := c.block(f.Body)
+	if why != "" {
+		return why
+	}
+	if !ret {
+		return "no_return_path"
+	}
+	return ""
+}
+
+// call mirrors lowerCall: the result types.
+func (c *fchk) call(e *Expr) ([]*Ty, string) {
+	fn := e.Fn
+	if fn.Index >= c.f.Index {
+		return nil, "recursion"
+	}
+	if len(e.Args) != len(fn.Params) {
+		return nil, "call_arity"
+	}
+	for i, a := range e.Args {
+		v, why := c.expr(a)
+		if why != "" {
+			return nil, why
+		}
+		if v.konst {
+			return nil, "const_argument"
+		}
+		if !tyEqGo(v.t, fn.Params[i].T) {
+			return nil, "type_mismatch"
+		}
+	}
+	if why := c.pg.calleeOK(fn); why != "" {
+		return nil, why
+	}
+	return fn.Results, ""
+}
+
 func (c *fchk) expr(e *Expr) (fexp, string) {
 	switch e.K {
 	case "lit":
@@ -105,7 +224,7 @@ func (c *fchk) expr(e *Expr) (fexp, string) {
 			}
 			return fexp{t: e.T, konst: true, n: e.N}, ""
 		}
-		return fexp{}, "aggregate_type"
+		return fexp{}, "aggregate_literal"
 	case "var":
 		b, ok := c.find(e.X)
 		if !ok {
@@ -114,10 +233,9 @@ func (c *fchk) expr(e *Expr) (fexp, string) {
 		if b.konst {
 			return fexp{t: tInt(32), konst: true, n: big.NewInt(b.n)}, ""
 		}
-		if !b.t.IsScalar() {
-			return fexp{}, "aggregate_type"
-		}
 		return fexp{t: b.t}, ""
+	case "cvar":
+		return fexp{}, "package_constant"
 	case "ivar":
 		b, ok := c.find(e.X)
 		if !ok || !b.konst {
@@ -147,11 +265,11 @@ func (c *fchk) expr(e *Expr) (fexp, string) {
 		if a.konst && b.konst {
 			return fexp{}, "const_only_expr"
 		}
-		if !a.t.Eq(b.t) {
+		if !tyEqGo(a.t, b.t) {
 			return fexp{}, "type_mismatch"
 		}
 		switch {
-		case e.X == "eq" || e.X == "ne":
+		case a.t.IsScalar() && (e.X == "eq" || e.X == "ne"):
 			return fexp{t: tyBool}, ""
 		case a.t.K == KBool && (e.X == "land" || e.X == "lor"):
 			return fexp{t: tyBool}, ""
@@ -213,11 +331,51 @@ func (c *fchk) expr(e *Expr) (fexp, string) {
 		}
 		return fexp{t: e.T}, ""
 	case "idx":
-		return fexp{}, "index"
+		a, why := c.expr(e.A)
+		if why != "" {
+			return fexp{}, why
+		}
+		if a.konst || a.t.K != KArr {
+			return fexp{}, "type_mismatch"
+		}
+		if k, ok := c.constIdx(e.B); ok {
+			if k < 0 || k >= int64(a.t.N) {
+				return fexp{}, "index_out_of_range"
+			}
+			return fexp{t: a.t.Elem}, ""
+		}
+		i, why := c.expr(e.B)
+		if why != "" {
+			return fexp{}, why
+		}
+		if i.konst {
+			return fexp{}, "const_index_expr" // a[i+1], a[uint2(1)]: folded by the compiler, not by `lower`
+		}
+		if i.t.K != KUint {
+			return fexp{}, "index_type"
+		}
+		if i.t.W >= 31 || 1<<uint(i.t.W) > a.t.N || a.t.Elem.Bits() == 0 {
+			return fexp{}, "index_may_exceed"
+		}
+		return fexp{t: a.t.Elem}, ""
 	case "fld":
-		return fexp{}, "field"
+		a, why := c.expr(e.A)
+		if why != "" {
+			return fexp{}, why
+		}
+		if a.konst || a.t.K != KStruct || e.Fi < 0 || e.Fi >= len(a.t.Fields) {
+			return fexp{}, "type_mismatch"
+		}
+		return fexp{t: a.t.Fields[e.Fi]}, ""
 	case "call":
-		return fexp{}, "call"
+		rs, why := c.call(e)
+		if why != "" {
+			return fexp{}, why
+		}
+		if len(rs) != 1 {
+			return fexp{}, "multi_value_call_in_expr"
+		}
+		return fexp{t: rs[0]}, ""
 	}
 	return fexp{}, "expr_" + e.K
 }
@@ -253,19 +411,47 @@ func desugared(s *Stmt) *Expr {
 	return &Expr{K: "bin", X: s.Op, A: cur, B: rhs, T: cur.T}
 }
 
-func (c *fchk) assign(x string, e *Expr) string {
-	b, ok := c.find(x)
+// lvalType mirrors pathOff: the type of the component the path selects.
+func (c *fchk) lvalType(lv *LVal) (*Ty, string) {
+	b, ok := c.find(lv.X)
 	if !ok || b.konst {
-		return "unbound_variable"
+		return nil, "unbound_variable"
 	}
+	t := b.t
+	for _, a := range lv.Path {
+		if a.Idx != nil {
+			if t.K != KArr {
+				return nil, "type_mismatch"
+			}
+			k, ok := c.constIdx(a.Idx)
+			if !ok {
+				return nil, "store_index_not_constant"
+			}
+			if k < 0 || k >= int64(t.N) {
+				return nil, "index_out_of_range"
+			}
+			t = t.Elem
+		} else {
+			if t.K != KStruct || a.Fi < 0 || a.Fi >= len(t.Fields) {
+				return nil, "type_mismatch"
+			}
+			t = t.Fields[a.Fi]
+		}
+	}
+	return t, ""
+}
+
+// assign mirrors `lowerS (.assign [lv] e)`: the value first, then assignVal.
+func (c *fchk) assign(lv *LVal, e *Expr) string {
 	v, why := c.expr(e)
 	if why != "" {
 		return why
 	}
-	if !b.t.IsScalar() {
-		return "aggregate_type"
+	t, why := c.lvalType(lv)
+	if why != "" {
+		return why
 	}
-	if !b.t.Eq(v.t) {
+	if !tyEqGo(t, v.t) {
 		return "type_mismatch"
 	}
 	return ""
@@ -276,15 +462,12 @@ func (c *fchk) assign(x string, e *Expr) string {
 func (c *fchk) stmt(s *Stmt) (bool, string) {
 	switch s.K {
 	case "decl":
-		if !s.T.IsScalar() {
-			return false, "aggregate_type"
-		}
 		if s.E != nil {
 			v, why := c.expr(s.E)
 			if why != "" {
 				return false, why
 			}
-			if !s.T.Eq(v.t) {
+			if !tyEqGo(s.T, v.t) {
 				return false, "type_mismatch"
 			}
 		}
@@ -292,7 +475,20 @@ func (c *fchk) stmt(s *Stmt) (bool, string) {
 		return false, ""
 	case "define":
 		if len(s.Xs) != 1 {
-			return false, "multi_define"
+			if s.E.K != "call" {
+				return false, "multi_define_not_call"
+			}
+			rs, why := c.call(s.E)
+			if why != "" {
+				return false, why
+			}
+			if len(rs) != len(s.Xs) {
+				return false, "assign_arity"
+			}
+			for i, x := range s.Xs {
+				c.declare(x, fbind{t: rs[i]})
+			}
+			return false, ""
 		}
 		v, why := c.expr(s.E)
 		if why != "" {
@@ -305,17 +501,30 @@ func (c *fchk) stmt(s *Stmt) (bool, string) {
 		return false, ""
 	case "assign":
 		if len(s.LVs) != 1 {
-			return false, "multi_assign"
+			if s.E.K != "call" {
+				return false, "multi_assign_not_call"
+			}
+			rs, why := c.call(s.E)
+			if why != "" {
+				return false, why
+			}
+			if len(rs) != len(s.LVs) {
+				return false, "assign_arity"
+			}
+			for i, lv := range s.LVs {
+				t, why := c.lvalType(lv)
+				if why != "" {
+					return false, why
+				}
+				if !tyEqGo(t, rs[i]) {
+					return false, "type_mismatch"
+				}
+			}
+			return false, ""
 		}
-		if len(s.LVs[0].Path) != 0 {
-			return false, "assign_component"
-		}
-		return false, c.assign(s.LVs[0].X, s.E)
+		return false, c.assign(s.LVs[0], s.E)
 	case "opassign", "incdec":
-		if len(s.LVs[0].Path) != 0 {
-			return false, "assign_component"
-		}
-		return false, c.assign(s.LVs[0].X, desugared(s))
+		return false, c.assign(s.LVs[0], desugared(s))
 	case "if":
 		v, why := c.expr(s.E)
 		if why != "" {
@@ -367,6 +576,9 @@ func (c *fchk) stmt(s *Stmt) (bool, string) {
 				es = append(es, &Expr{K: "var", X: x})
 			}
 		}
+		if len(es) == 1 && es[0].K == "call" && len(es[0].Fn.Results) != 1 {
+			return false, "return_call_multi"
+		}
 		var vs []fexp
 		for _, e := range es {
 			v, why := c.expr(e)
@@ -379,7 +591,7 @@ func (c *fchk) stmt(s *Stmt) (bool, string) {
 			return false, "return_arity"
 		}
 		for i, v := range vs {
-			if !v.t.Eq(c.f.Results[i]) {
+			if !tyEqGo(v.t, c.f.Results[i]) {
 				return false, "type_mismatch"
 			}
 		}
@@ -404,6 +616,8 @@ func (c *fchk) block(ss []*Stmt) (bool, string) {
 	return false, ""
 }
 
+// declNames: names declared by `var` / `:=` (declB), and whether a `:=` sits in a
+// loop body (defineOkB).
 func declNames(ss []*Stmt, inFor bool, names *[]string, defineInFor *bool) {
 	for _, s := range ss {
 		switch s.K {
@@ -418,58 +632,123 @@ func declNames(ss []*Stmt, inFor bool, names *[]string, defineInFor *bool) {
 			declNames(s.Then, inFor, names, defineInFor)
 			declNames(s.Else, inFor, names, defineInFor)
 		case "for":
-			*names = append(*names, s.X)
 			declNames(s.Then, true, names, defineInFor)
 		}
 	}
 }
 
-// inFragment: is the program inside the fragment of `Ssa.lower` (then `lower`
-// must succeed on p.Sx()); the reason is the first failing condition.
-func inFragment(p *Program) (bool, string) {
-	if len(p.Funcs) != 1 {
-		return false, "helper_funcs"
+// loopOk mirrors `loopOkB`: a loop variable is neither the variable of an
+// enclosing loop nor any other declared name.
+func loopOk(ss []*Stmt, outer []string, others map[string]bool) bool {
+	for _, s := range ss {
+		switch s.K {
+		case "if":
+			if !loopOk(s.Then, outer, others) || !loopOk(s.Else, outer, others) {
+				return false
+			}
+		case "for":
+			if others[s.X] {
+				return false
+			}
+			for _, o := range outer {
+				if o == s.X {
+					return false
+				}
+			}
+			if !loopOk(s.Then, append(append([]string(nil), outer...), s.X), others) {
+				return false
+			}
+		}
 	}
-	f := p.Main()
-	c := &fchk{f: f}
-	c.push()
+	return true
+}
+
+// scopeOkGo mirrors `scopeOk` on one function.
+func scopeOkGo(f *Func) string {
 	var names []string
 	for _, pr := range f.Params {
-		if !pr.T.IsScalar() {
-			return false, "aggregate_type"
-		}
-		c.declare(pr.Name, fbind{t: pr.T})
 		names = append(names, pr.Name)
 	}
-	for _, r := range f.Results {
-		if !r.IsScalar() {
-			return false, "aggregate_type"
-		}
-	}
-	// named results are ordinary zero-initialised variables in Sx()
-	for i, n := range f.Named {
-		c.declare(n, fbind{t: f.Results[i]})
-		names = append(names, n)
-	}
-	ret, why := c.block(f.Body)
-	if why != "" {
-		return false, why
-	}
-	if !ret {
-		return false, "no_return_path"
-	}
-	// scopeOk
+	names = append(names, f.Named...)
 	defineInFor := false
 	declNames(f.Body, false, &names, &defineInFor)
 	seen := map[string]bool{}
 	for _, n := range names {
 		if seen[n] {
-			return false, "redeclared"
+			return "redeclared"
 		}
 		seen[n] = true
 	}
+	if !loopOk(f.Body, nil, seen) {
+		return "loopvar_redeclared"
+	}
 	if defineInFor {
-		return false, "define_in_for"
+		return "define_in_for"
+	}
+	return ""
+}
+
+// callsBelow mirrors `callsOkFrom`: every call (of every function, called or not)
+// targets a function with a smaller index.
+func callsBelow(p *Program) bool {
+	ok := true
+	var we func(k int, e *Expr)
+	we = func(k int, e *Expr) {
+		if e == nil {
+			return
+		}
+		if e.K == "call" {
+			if e.Fn.Index >= k {
+				ok = false
+			}
+			for _, a := range e.Args {
+				we(k, a)
+			}
+		}
+		we(k, e.A)
+		we(k, e.B)
+	}
+	var wb func(k int, ss []*Stmt)
+	wb = func(k int, ss []*Stmt) {
+		for _, s := range ss {
+			we(k, s.E)
+			for _, e := range s.Es {
+				we(k, e)
+			}
+			if (s.K == "opassign" || s.K == "incdec") && len(s.LVs) > 0 {
+				we(k, s.LVs[0].AsExpr(s.RootT))
+			}
+			wb(k, s.Then)
+			wb(k, s.Else)
+		}
+	}
+	for i, f := range p.Funcs {
+		if f.Index != i {
+			return false
+		}
+		wb(i, f.Body)
+	}
+	return ok
+}
+
+// inFragment: is the program inside the fragment of `Ssa.lower` (then `lower`
+// must succeed on p.Sx()); the reason is the first failing condition.
+func inFragment(p *Program) (bool, string) {
+	if len(p.Globals) > 0 {
+		return false, "package_globals"
+	}
+	// progOk: all functions, called or not
+	for _, f := range p.Funcs {
+		if why := scopeOkGo(f); why != "" {
+			return false, why
+		}
+	}
+	if !callsBelow(p) {
+		return false, "recursion"
+	}
+	pg := &fprog{p: p, callee: map[*Func]string{}, busy: map[*Func]bool{}}
+	if why := pg.funcBody(p.Main()); why != "" {
+		return false, why
 	}
 	return true, ""
 }
@@ -541,6 +820,37 @@ func (fs featSet) expr(e *Expr) {
 		fs["not"] = true
 	case "neg":
 		fs["neg"] = true
+	case "idx":
+		switch {
+		case e.B.K == "lit":
+			fs["index_const"] = true
+		case e.B.K == "ivar":
+			fs["index_loopvar"] = true
+		default:
+			fs["index_variable"] = true
+		}
+		if e.A.K == "idx" || e.A.K == "fld" {
+			fs["nested_read"] = true
+		}
+	case "fld":
+		fs["field_read"] = true
+		if e.A.K == "idx" || e.A.K == "fld" {
+			fs["nested_read"] = true
+		}
+	case "call":
+		fs["call"] = true
+		if len(e.Fn.Results) == 1 {
+			fs["call_one_result"] = true
+		}
+		for _, a := range e.Args {
+			if a.T != nil && !a.T.IsScalar() {
+				fs["agg_argument"] = true
+			}
+			if a.K == "call" {
+				fs["call_as_argument"] = true
+			}
+			fs.expr(a)
+		}
 	case "cast":
 		if from := e.A.T; from != nil {
 			switch {
@@ -569,6 +879,31 @@ func (fs featSet) block(ss []*Stmt, ifDepth int, inLoop bool) bool {
 			if s.T.K == KBool {
 				fs["bool_var"] = true
 			}
+			if !s.T.IsScalar() {
+				switch {
+				case s.E == nil:
+					fs["agg_zero"] = true
+				case s.E.K == "call":
+				default:
+					fs["agg_copy"] = true
+				}
+				if s.T.K == KArr {
+					fs["array"] = true
+					if s.T.Elem.K != KArr && !s.T.Elem.IsScalar() || s.T.Elem.K == KArr {
+						fs["nested_agg"] = true
+					}
+				} else {
+					fs["struct"] = true
+					for _, f := range s.T.Fields {
+						if !f.IsScalar() {
+							fs["nested_agg"] = true
+						}
+					}
+				}
+			}
+			if s.E != nil && s.E.K == "call" {
+				fs["call_decl"] = true
+			}
 			if s.E == nil {
 				fs["decl_zero"] = true
 			} else {
@@ -580,15 +915,36 @@ func (fs featSet) block(ss []*Stmt, ifDepth int, inLoop bool) bool {
 			fs.expr(s.E)
 		case "define":
 			fs["define"] = true
+			if len(s.Xs) > 1 {
+				fs["multi_define"] = true
+			} else if s.E.K == "call" {
+				fs["call_decl"] = true
+			}
 			fs.expr(s.E)
 		case "assign":
 			fs["assign"] = true
 			if s.E.IsConst() {
 				fs["assign_constant"] = true
 			}
+			if len(s.LVs) > 1 {
+				fs["multi_assign"] = true
+			}
+			for _, lv := range s.LVs {
+				fs.lval(lv, inLoop)
+			}
+			if len(s.LVs) == 1 && len(s.LVs[0].Path) == 0 && s.LVs[0].T != nil && !s.LVs[0].T.IsScalar() {
+				fs["agg_copy"] = true
+				if ifDepth > 0 {
+					fs["agg_assigned_in_if"] = true
+				}
+			}
 			fs.expr(s.E)
 		case "opassign", "incdec":
 			fs[s.K] = true
+			fs.lval(s.LVs[0], inLoop)
+			if len(s.LVs[0].Path) > 0 {
+				fs["opassign_component"] = true
+			}
 			fs.expr(desugared(s))
 		case "if":
 			fs["if"] = true
@@ -656,9 +1012,77 @@ func (fs featSet) block(ss []*Stmt, ifDepth int, inLoop bool) bool {
 	return ret
 }
 
+// lval: features of an l-value path.
+func (fs featSet) lval(lv *LVal, inLoop bool) {
+	if len(lv.Path) == 0 {
+		return
+	}
+	if lv.Path[0].Idx != nil {
+		fs["elem_write"] = true
+	} else {
+		fs["field_write"] = true
+	}
+	if len(lv.Path) > 1 {
+		fs["nested_write"] = true
+	}
+	for _, a := range lv.Path {
+		if a.Idx != nil && a.Idx.K == "ivar" {
+			fs["store_index_loopvar"] = true
+		}
+	}
+	if inLoop {
+		fs["component_write_in_loop"] = true
+	}
+}
+
 func featuresOf(p *Program) []string {
 	fs := featSet{}
 	fs.block(p.Main().Body, 0, false)
+	mainNames := map[string]bool{}
+	for _, pr := range p.Main().Params {
+		mainNames[pr.Name] = true
+		if !pr.T.IsScalar() {
+			fs["agg_param"] = true
+		}
+	}
+	for _, rt := range p.Main().Results {
+		if !rt.IsScalar() {
+			fs["agg_result"] = true
+		}
+	}
+	for _, f := range p.Funcs[:len(p.Funcs)-1] {
+		hs := featSet{}
+		hs.block(f.Body, 0, false)
+		for k := range hs {
+			fs[k] = true
+		}
+		fs["helper"] = true
+		if hs["early_return"] {
+			fs["callee_early_return"] = true
+		}
+		if hs["call"] {
+			fs["callee_calls"] = true
+		}
+		if len(f.Results) > 1 {
+			fs["callee_multi_result"] = true
+		}
+		if f.Named != nil {
+			fs["callee_named_results"] = true
+		}
+		for _, pr := range f.Params {
+			if mainNames[pr.Name] {
+				fs["callee_reuses_caller_names"] = true
+			}
+			if !pr.T.IsScalar() {
+				fs["callee_agg_param"] = true
+			}
+		}
+		for _, rt := range f.Results {
+			if !rt.IsScalar() {
+				fs["callee_agg_result"] = true
+			}
+		}
+	}
 	var out []string
 	for k := range fs {
 		out = append(out, k)
